@@ -6,6 +6,7 @@ ends within `N` passes, and the numbering it ends with is a bijection of the nod
 import XfemmVerif.Model.Cuthill
 import Mathlib.Data.Fintype.Card
 import Mathlib.Data.Fintype.Fin
+import Mathlib.Data.List.Basic
 namespace XfemmVerif.CuthillLemmas
 open XfemmVerif.Cuthill
 
@@ -461,5 +462,342 @@ theorem sortElements_perm (els : List Elem) : (sortElements els).Perm els := by
   rw [Array.perm_iff_toList_perm] at h
   have h2 := h.map (·.2)
   simpa [List.map_map, Function.comp_def] using h2
+
+/-! ### `SortNodes`: placement, termination, and the chain `Cuthill` + `SortNodes` -/
+
+
+theorem settle_perm {β : Type} : ∀ (fuel i : Nat) (a a' : Array (Nat × β)), settle fuel i a = some a' → a'.Perm a := by
+  intro fuel
+  induction fuel with
+  | zero => intro i a a' h; simp [settle] at h
+  | succ f ih =>
+    intro i a a' h
+    unfold settle at h
+    split at h
+    · cases h; exact Array.Perm.refl _
+    · split at h
+      · cases h; exact Array.Perm.refl _
+      · split at h
+        · exact (ih _ _ _ h).trans (swapIB_perm _ _ _)
+        · cases h
+
+/-- when the inner loop ends, position `i` holds its own number -/
+theorem settle_fixed {β : Type} : ∀ (fuel i : Nat) (a a' : Array (Nat × β)), settle fuel i a = some a' → i < a.size →
+    ∃ x, a'[i]? = some (i, x) := by
+  intro fuel
+  induction fuel with
+  | zero => intro i a a' h; simp [settle] at h
+  | succ f ih =>
+    intro i a a' h hi
+    unfold settle at h
+    split at h
+    · rename_i hn; simp at hn; omega
+    · rename_i j x hs
+      split at h
+      · rename_i hj; cases h; subst hj; exact ⟨x, hs⟩
+      · split at h
+        · exact ih _ _ _ h (by simpa using hi)
+        · cases h
+
+def tr (i j k : Nat) : Nat := if j = k then i else if i = k then j else k
+
+theorem tr_invol (i j k : Nat) : tr i j (tr i j k) = k := by
+  unfold tr; split <;> split <;> (try split) <;> omega
+
+theorem swapIB_get {β : Type} (a : Array β) (i j k : Nat) (hi : i < a.size) (hj : j < a.size) :
+    (a.swapIfInBounds i j)[k]? = a[tr i j k]? := by
+  rw [Array.swapIfInBounds_def]
+  simp only [hi, hj, dite_true, Array.getElem?_swap, tr]
+  split
+  · simp [hi]
+  · split
+    · simp [hj]
+    · rfl
+
+def Distinct {β : Type} (a : Array (Nat × β)) : Prop :=
+  ∀ (p q : Nat) (u v : Nat × β), a[p]? = some u → a[q]? = some v → u.1 = v.1 → p = q
+
+theorem distinct_swap {β : Type} (a : Array (Nat × β)) (i j : Nat) (hi : i < a.size) (hj : j < a.size) (h : Distinct a) :
+    Distinct (a.swapIfInBounds i j) := by
+  intro p q u v hp hq huv
+  rw [swapIB_get a i j _ hi hj] at hp hq
+  have := h _ _ u v hp hq huv
+  have e := congrArg (tr i j) this
+  rwa [tr_invol, tr_invol] at e
+
+theorem settle_distinct {β : Type} : ∀ (fuel i : Nat) (a a' : Array (Nat × β)), settle fuel i a = some a' → Distinct a → Distinct a' := by
+  intro fuel
+  induction fuel with
+  | zero => intro i a a' h; simp [settle] at h
+  | succ f ih =>
+    intro i a a' h hd
+    unfold settle at h
+    split at h
+    · cases h; exact hd
+    · rename_i j x hs
+      split at h
+      · cases h; exact hd
+      · split at h
+        · rename_i hj
+          have hi : i < a.size := by
+            by_contra hc
+            have : a[i]? = none := by simp; omega
+            rw [this] at hs; cases hs
+          exact ih _ _ _ h (distinct_swap a i j hi hj hd)
+        · cases h
+
+/-- positions that already hold their own number are not disturbed by the loop at another position -/
+theorem settle_keeps {β : Type} : ∀ (fuel i : Nat) (a a' : Array (Nat × β)), settle fuel i a = some a' → Distinct a →
+    ∀ (p : Nat) (x : β), p ≠ i → a[p]? = some (p, x) → a'[p]? = some (p, x) := by
+  intro fuel
+  induction fuel with
+  | zero => intro i a a' h; simp [settle] at h
+  | succ f ih =>
+    intro i a a' h hd p x hpi hp
+    unfold settle at h
+    split at h
+    · cases h; exact hp
+    · rename_i j y hs
+      split at h
+      · cases h; exact hp
+      · rename_i hji
+        split at h
+        · rename_i hj
+          have hi : i < a.size := by
+            by_contra hc
+            have : a[i]? = none := by simp; omega
+            rw [this] at hs; cases hs
+          have hpj : p ≠ j := by
+            intro e
+            subst e
+            exact hpi (hd i p (p, y) (p, x) hs hp rfl).symm
+          apply ih _ _ _ h (distinct_swap a i j hi hj hd) p x hpi
+          rw [swapIB_get a i j p hi hj]
+          have : tr i j p = p := by unfold tr; split <;> (try split) <;> omega
+          rw [this]; exact hp
+        · cases h
+
+theorem settle_size {β : Type} : ∀ (fuel i : Nat) (a a' : Array (Nat × β)), settle fuel i a = some a' → a'.size = a.size := by
+  intro fuel i a a' h
+  have := (settle_perm fuel i a a' h)
+  rw [Array.perm_iff_toList_perm] at this
+  simpa using this.length_eq
+
+def Fixed {β : Type} (a : Array (Nat × β)) (S : List Nat) : Prop := ∀ p ∈ S, ∃ x, a[p]? = some (p, x)
+
+theorem fold_inv {β : Type} (F : Nat) : ∀ (l : List Nat) (done : List Nat) (a a' : Array (Nat × β)),
+    l.foldlM (fun a i => settle F i a) a = some a' → Distinct a → Fixed a done → (∀ i ∈ l, i < a.size) →
+    a'.Perm a ∧ Distinct a' ∧ Fixed a' (done ++ l) := by
+  intro l
+  induction l with
+  | nil =>
+    intro done a a' h hd hf _
+    simp only [List.foldlM_nil] at h
+    cases h
+    exact ⟨Array.Perm.refl _, hd, by simpa using hf⟩
+  | cons i rest ih =>
+    intro done a a' h hd hf hl
+    simp only [List.foldlM_cons] at h
+    cases hs : settle F i a with
+    | none => rw [hs] at h; simp at h
+    | some a1 =>
+      rw [hs] at h
+      simp only [Option.bind_eq_bind, Option.bind_some] at h
+      have hi : i < a.size := hl i List.mem_cons_self
+      have hsz := settle_size F i a a1 hs
+      have hd1 := settle_distinct F i a a1 hs hd
+      have hf1 : Fixed a1 (done ++ [i]) := by
+        intro p hp
+        rw [List.mem_append] at hp
+        by_cases hpi : p = i
+        · subst hpi; exact settle_fixed F p a a1 hs hi
+        · rcases hp with hp | hp
+          · obtain ⟨x, hx⟩ := hf p hp
+            exact ⟨x, settle_keeps F i a a1 hs hd p x hpi hx⟩
+          · simp at hp; exact absurd hp hpi
+      obtain ⟨hp2, hd2, hf2⟩ := ih (done ++ [i]) a1 a' h hd1 hf1 (fun j hj => by rw [hsz]; exact hl j (List.mem_cons_of_mem _ hj))
+      refine ⟨hp2.trans (settle_perm F i a a1 hs), hd2, ?_⟩
+      simpa [List.append_assoc] using hf2
+
+/-- `SortNodes` puts every node where `newnum` says: whenever the loop ends (it does when the numbers are a permutation of the positions,
+    `sortNodesLoop_total`), the array is a rearrangement of the original (number, node) pairs in which every pair sits at the position
+    of its number - for any node type -/
+theorem sortNodesLoop_places {β : Type} (a a' : Array (Nat × β)) (hd : Distinct a) (h : sortNodesLoop a = some a') :
+    a'.Perm a ∧ ∀ (u : Nat × β), u ∈ a → a'[u.1]? = some u := by
+  unfold sortNodesLoop at h
+  obtain ⟨hp, _, hf⟩ := fold_inv (a.size + 1) (List.range a.size) [] a a' h hd (by intro p hp; cases hp)
+    (fun i hi => List.mem_range.mp hi)
+  refine ⟨hp, ?_⟩
+  intro u hu
+  have hu' : u ∈ a' := hp.symm.mem_iff.mp hu
+  obtain ⟨p, hp1, hp2⟩ := Array.mem_iff_getElem.mp hu'
+  have hsz : a'.size = a.size := by
+    have := hp; rw [Array.perm_iff_toList_perm] at this; simpa using this.length_eq
+  obtain ⟨x, hx⟩ := hf p (by simp; omega)
+  have e : a'[p]? = some u := by rw [Array.getElem?_eq_getElem hp1, hp2]
+  rw [hx] at e
+  cases e
+  exact hx
+
+/-- position `p` does not (yet) hold its own number -/
+def unfixed {β : Type} (a : Array (Nat × β)) (p : Nat) : Bool := decide ((a[p]?.map (·.1)) ≠ some p)
+
+def nf {β : Type} (a : Array (Nat × β)) : Nat := ((List.range a.size).filter (unfixed a)).length
+
+theorem filter_lt {l : List Nat} {p q : Nat → Bool} (hpq : ∀ x, p x = true → q x = true) (j : Nat) (hj : j ∈ l)
+    (hq : q j = true) (hp : p j = false) : (l.filter p).length < (l.filter q).length := by
+  have hs : List.Sublist (l.filter p) (l.filter q) := List.monotone_filter_right l hpq
+  rcases Nat.lt_or_ge (l.filter p).length (l.filter q).length with h | h
+  · exact h
+  · exfalso
+    have e := hs.eq_of_length_le h
+    have : j ∈ l.filter q := List.mem_filter.mpr ⟨hj, hq⟩
+    rw [← e] at this
+    have := (List.mem_filter.mp this).2
+    rw [hp] at this
+    cases this
+
+theorem nf_swap {β : Type} (a : Array (Nat × β)) (i j : Nat) (x : β) (hi : i < a.size) (hj : j < a.size) (hij : j ≠ i)
+    (hs : a[i]? = some (j, x)) (hd : Distinct a) : nf (a.swapIfInBounds i j) < nf a := by
+  unfold nf
+  rw [Array.size_swapIfInBounds]
+  apply filter_lt (j := j)
+  · intro k hk
+    unfold unfixed at hk ⊢
+    simp only [decide_eq_true_eq] at hk ⊢
+    rw [swapIB_get a i j k hi hj] at hk
+    intro hfix
+    apply hk
+    unfold tr
+    by_cases h1 : j = k
+    · subst h1; simp [hs]
+    · by_cases h2 : i = k
+      · subst h2
+        -- a[i] has number j ≠ i, contradiction with hfix
+        rw [hs] at hfix; simp at hfix; exact absurd hfix hij
+      · simp [h1, h2, hfix]
+  · exact List.mem_range.mpr hj
+  · unfold unfixed
+    simp only [decide_eq_true_eq]
+    intro hfix
+    cases hv : a[j]? with
+    | none => rw [hv] at hfix; simp at hfix
+    | some v =>
+      rw [hv] at hfix
+      simp at hfix
+      exact hij (hd i j (j, x) v hs hv (by simpa using hfix.symm)).symm
+  · unfold unfixed
+    rw [swapIB_get a i j j hi hj]
+    have : tr i j j = i := by unfold tr; simp
+    rw [this, hs]
+    simp
+
+def InRange {β : Type} (a : Array (Nat × β)) : Prop := ∀ (u : Nat × β), u ∈ a → u.1 < a.size
+
+theorem inrange_perm {β : Type} (a b : Array (Nat × β)) (hp : b.Perm a) (h : InRange a) : InRange b := by
+  intro u hu
+  have hsz : b.size = a.size := by
+    have := hp; rw [Array.perm_iff_toList_perm] at this; simpa using this.length_eq
+  rw [hsz]
+  exact h u (hp.mem_iff.mp hu)
+
+theorem nf_le {β : Type} (a : Array (Nat × β)) : nf a ≤ a.size := by
+  unfold nf
+  have := List.length_filter_le (unfixed a) (List.range a.size)
+  simpa using this
+
+theorem settle_total {β : Type} : ∀ (fuel i : Nat) (a : Array (Nat × β)), nf a < fuel → Distinct a → InRange a →
+    ∃ a', settle fuel i a = some a' := by
+  intro fuel
+  induction fuel with
+  | zero => intro i a h; omega
+  | succ f ih =>
+    intro i a hnf hd hr
+    unfold settle
+    cases hs : a[i]? with
+    | none => exact ⟨a, rfl⟩
+    | some u =>
+      obtain ⟨j, x⟩ := u
+      simp only []
+      by_cases hji : j = i
+      · simp [hji]
+      · have hi : i < a.size := by
+          by_contra hc
+          have : a[i]? = none := by simp; omega
+          rw [this] at hs; cases hs
+        have hj : j < a.size := hr (j, x) (Array.mem_of_getElem? hs)
+        simp only [hji, if_false, hj, if_true]
+        apply ih
+        · have := nf_swap a i j x hi hj hji hs hd; omega
+        · exact distinct_swap a i j hi hj hd
+        · exact inrange_perm a _ (swapIB_perm a i j) hr
+
+theorem fold_total {β : Type} (N : Nat) : ∀ (l : List Nat) (b : Array (Nat × β)), Distinct b → InRange b → b.size = N →
+    ∃ a', l.foldlM (fun b i => settle (N + 1) i b) b = some a' := by
+  intro l
+  induction l with
+  | nil => intro b _ _ _; exact ⟨b, rfl⟩
+  | cons i rest ih =>
+    intro b hd hr hsz
+    obtain ⟨b1, h1⟩ := settle_total (N + 1) i b (by have := nf_le b; omega) hd hr
+    simp only [List.foldlM_cons, h1, Option.bind_eq_bind, Option.bind_some]
+    exact ih b1 (settle_distinct _ _ _ _ h1 hd) (inrange_perm b b1 (settle_perm _ _ _ _ h1) hr)
+      (by rw [settle_size _ _ _ _ h1]; exact hsz)
+
+/-- `SortNodes` ends: when the numbers are pairwise distinct and all below the number of nodes (a permutation of the positions -
+    what `cuthill_is_permutation` establishes for `newnum`) every `while` loop is left within `N + 1` passes -/
+theorem sortNodesLoop_total {β : Type} (a : Array (Nat × β)) (hd : Distinct a) (hr : InRange a) :
+    ∃ a', sortNodesLoop a = some a' := by
+  unfold sortNodesLoop
+  exact fold_total a.size (List.range a.size) a hd hr rfl
+
+/-- the chain every solver runs before assembling, for every mesh graph: `Cuthill()` returns a numbering, `SortNodes` ends, and node `i`
+    of the mesh is found at position `newnum[i]` of the reordered node list (which is what the solution file lists) -/
+theorem renumbering_chain {β : Type} (N : Nat) (es : List (Nat × Nat)) (nodes : Array β) (hN : 2 ≤ N)
+    (hes : ∀ e ∈ es, e.1 < N ∧ e.2 < N) (hnd : nodes.size = N) :
+    ∃ r out, cuthill N es = some r ∧ sortNodes r.newnum nodes = some out ∧ out.size = N ∧
+      ∀ (i : Nat), i < N → out[r.newnum[i]?.getD 0]? = nodes[i]? := by
+  obtain ⟨r, hr, hsz, hlt, hinj⟩ := cuthill_perm N es hN hes
+  have hd : Distinct (r.newnum.zip nodes) := by
+    intro p q u v hp hq huv
+    rw [Array.getElem?_zip_eq_some] at hp hq
+    have hpN : p < N := by
+      by_contra hc
+      have : r.newnum[p]? = none := by simp; omega
+      rw [this] at hp; cases hp.1
+    have hqN : q < N := by
+      by_contra hc
+      have : r.newnum[q]? = none := by simp; omega
+      rw [this] at hq; cases hq.1
+    apply hinj p q hpN hqN
+    rw [hp.1, hq.1]; simpa using huv
+  have hzs : (r.newnum.zip nodes).size = N := by simp [Array.size_zip, hsz, hnd]
+  have hrng : InRange (r.newnum.zip nodes) := by
+    intro u hu
+    obtain ⟨p, hp1, hp2⟩ := Array.mem_iff_getElem.mp hu
+    have e : (r.newnum.zip nodes)[p]? = some u := by rw [Array.getElem?_eq_getElem hp1, hp2]
+    rw [Array.getElem?_zip_eq_some] at e
+    rw [hzs]
+    have hpN : p < N := by rw [hzs] at hp1; exact hp1
+    have := hlt p hpN
+    rw [e.1] at this
+    simpa using this
+  obtain ⟨a', ha'⟩ := sortNodesLoop_total _ hd hrng
+  obtain ⟨hperm, hplace⟩ := sortNodesLoop_places _ a' hd ha'
+  have hsz' : a'.size = N := by
+    have := hperm; rw [Array.perm_iff_toList_perm] at this
+    have := this.length_eq
+    simp at this; omega
+  refine ⟨r, a'.map (·.2), hr, ?_, by simp [hsz'], ?_⟩
+  · unfold sortNodes; rw [ha']; rfl
+  · intro i hi
+    have hi1 : i < r.newnum.size := by omega
+    have hi2 : i < nodes.size := by omega
+    have hu : (r.newnum.zip nodes)[i]? = some (r.newnum[i], nodes[i]) := by
+      rw [Array.getElem?_zip_eq_some]; simp [hi1, hi2]
+    have hmem : (r.newnum[i], nodes[i]) ∈ r.newnum.zip nodes := Array.mem_of_getElem? hu
+    have := hplace _ hmem
+    simp only [Array.getElem?_eq_getElem hi1, Option.getD_some, Array.getElem?_map, this, Option.map_some,
+      Array.getElem?_eq_getElem hi2]
 
 end XfemmVerif.CuthillLemmas
